@@ -316,6 +316,21 @@ theorem C04_formats_agree (ccd : Ccd) (blk : Block) (o : ReadOpts) (text binary 
   rw [(hL blk).1, (hL blk).2.1, (hL blk).2.2]
   exact ⟨rfl, rfl, rfl⟩
 
+/-- **`chem_comp_bond` de-duplication is by the name *triple*.**  `np.unique(axis=0)` over the columns
+(res_name, atom_1, atom_2): every row's triple is represented, exactly once, and a kept row is a
+written row — so two bonds whose names merely *concatenate* to the same string (ligand atoms C, C1,
+1H, 11H with bonds C–11H and C1–1H; components XY:Z1–Q and X:YZ1–Q) both stay (witness below).
+A separator-free concatenated key (seeded change C04-13) violates this. -/
+theorem C04_ccb_unique_by_triple (rows : List CompBondRow) :
+    ((uniqueRowsAux [] rows).map rowKey).Nodup ∧
+    (∀ x ∈ uniqueRowsAux [] rows, x ∈ rows) ∧
+    (∀ x ∈ rows, ∃ y ∈ uniqueRowsAux [] rows, rowKey y = rowKey x) ∧
+    uniqueRowsAux [] [⟨"LIG", "C", "11H", ⟨"SING", .present⟩, ⟨"N", .present⟩⟩,
+        ⟨"LIG", "C1", "1H", ⟨"DOUB", .present⟩, ⟨"N", .present⟩⟩] =
+      [⟨"LIG", "C", "11H", ⟨"SING", .present⟩, ⟨"N", .present⟩⟩, ⟨"LIG", "C1", "1H", ⟨"DOUB", .present⟩, ⟨"N", .present⟩⟩] :=
+  ⟨uniqueRows_nodup rows [], fun x hx => (uniqueRows_sub rows [] x hx).1,
+   fun x hx => uniqueRows_covers rows [] x hx (by simp), by decide⟩
+
 /-! ## Altloc -/
 
 /-- **`first` policy is exact** (per residue): an atom is kept iff it has no altloc id or its id
